@@ -1185,3 +1185,16 @@ MUTANTS += [
  dict(name='c20-mutable-cursor-in-g2prepared', prop='C20', expect='R-EFFECT/const',
       edits=[('include/bls12_381/pairing.hpp', 'bool infinity;\n', 'bool infinity;\n        mutable unsigned char scratch_pos;\n')], count=1),
 ]
+# ---- sign predicate truth tables (C09, C10)
+MUTANTS += [
+ dict(name='c09-getpoint-sign-compare-reversed', prop='C09', expect='getpoint-sign',
+      edits=[('include/bls12_381/curve.hpp', 'bool ywasgreater = (BaseField::compare(y, negy) == 1);', 'bool ywasgreater = (BaseField::compare(negy, y) == 1);')]),
+ dict(name='c10-getpoint-sign-ge', prop='C10', expect='getpoint-sign',
+      edits=[('include/bls12_381/curve.hpp', 'bool ywasgreater = (BaseField::compare(y, negy) == 1);', 'bool ywasgreater = (BaseField::compare(y, negy) >= 0);')]),
+ dict(name='c09-encoder-sign-ne-minus-one', prop='C09', expect='sign|',
+      edits=[('src/bls12_381/curve.cpp', 'if (Affine::BaseFieldType::compare(g.y, negy) == 1) {', 'if (Affine::BaseFieldType::compare(g.y, negy) != -1) {')]),
+ dict(name='c09-benign-getpoint-sign-reversed-compare-minus-one', prop='C09', benign=True, expect='',
+      edits=[('include/bls12_381/curve.hpp', 'bool ywasgreater = (BaseField::compare(y, negy) == 1);', 'bool ywasgreater = (BaseField::compare(negy, y) == -1);')]),
+ dict(name='c10-benign-getpoint-sign-reversed-compare-minus-one', prop='C10', benign=True, expect='',
+      edits=[('include/bls12_381/curve.hpp', 'bool ywasgreater = (BaseField::compare(y, negy) == 1);', 'bool ywasgreater = (BaseField::compare(negy, y) == -1);')]),
+]
